@@ -619,6 +619,28 @@ func runC20(r *ev.Run) {
 			for j, v := range train {
 				nodes[j] = *comet.NewVectorNodeWithID(uint32(j+1), cloneF32(v))
 			}
+			if reuseBuffers {
+				// this index has a training HISTORY: it was trained before, on other data (or on the same data), and is
+				// now trained on D; the other index sees D only. Training replaces what was there: search-identical.
+				switch i % 3 {
+				case 0:
+					other := make([]comet.VectorNode, len(train))
+					for j := range train {
+						w := cloneF32(train[(j*7+3)%len(train)])
+						for x := range w {
+							w[x] = w[x]*3 + float32(x+1)
+						}
+						other[j] = *comet.NewVectorNodeWithID(uint32(j+1), w)
+					}
+					idx.Train(other)
+				case 1:
+					first := make([]comet.VectorNode, len(train))
+					for j, v := range train {
+						first[j] = *comet.NewVectorNodeWithID(uint32(j+1), cloneF32(v))
+					}
+					idx.Train(first)
+				}
+			}
 			if err := idx.Train(nodes); err != nil {
 				fail("train-twice.train-error", err.Error())
 				return nil
